@@ -177,6 +177,7 @@ def replay(body):
 def run(ctx):
     rng = ctx.rng
     ctx.check_theorems()
+    ctx.check_generated(['qfm'])
     # (K) trace-driven: the real lattice search's answers are recorded and fed to the Coq loop as the oracle
     exprs, meta = [], []
     nprogress = 0
